@@ -236,6 +236,20 @@ def _machine(plan, scratch, log, stats, violation):
                 if _pred_bits(a, screen) != _pred_bits(b, screen):
                     violation("C10.reload-predicts-differently", plan["model"], f"sample {j} predicts differently after reload")
                     return
+            if sub_rng(st["sub"], "torn").random() < 0.3:
+                # fault store.torn-save: the holder's archive is cut off while being written; loading the remains must
+                # refuse or give back exactly the samples that were being saved
+                verdict = pipe.torn_roundtrip(h.save_h5, ThetaHolder.load_h5,
+                                              lambda g: [pipe.theta_params(t) for t in g.thetas] == [pipe.theta_params(t) for t in model],
+                                              scratch.file("count.h5"), scratch.file("torn.h5"), sub_rng(st["sub"], "torn-at").random())
+                if verdict:
+                    stats.fault("store.torn-save")
+                    stats.probe("torn_archive_" + verdict)
+                    log.ev("torn", verdict)
+                if verdict == "different":
+                    violation("C10.torn-archive-read-as-something-else", "ThetaHolder.load_h5",
+                              "an archive of posterior samples whose writing was cut off was accepted by load_h5 and gives other samples than the ones being saved")
+                    return
             if len(model) >= 2:
                 compared += 1
                 sizes_seen.add(min(len(model), 12))
